@@ -23,15 +23,19 @@ GDefOption == ~KbOnly /\ NDefs < MaxDefs /\ \E p \in {<<"flags", Lit(8)>>, <<"fl
                  p[1] \notin Defined /\ DefOption(p[1], p[2]) /\ Log([ev |-> "DefOption", n |-> p[1], e |-> p[2]])
 GDefOptionStr == ~KbOnly /\ NDefs < MaxDefs /\ \E p \in {<<"productVersion", "1.2.3">>, <<"componentVersion", "4.5.6">>, <<"productVersion", "999.999.999">>} :
                  p[1] \notin Defined /\ DefOptionStr(p[1], p[2]) /\ Log([ev |-> "DefOptionStr", n |-> p[1], v |-> p[2]])
-\* key blobs: ids need not follow the order of definition; every blob has its own range, key and counter (hi = ...3FB: VLD and ADE set, read-only flag clear)
+\* key blobs: ids need not follow the order of definition; every blob has its own range, key and counter (hi = ...3FB: VLD and ADE set, read-only flag clear; the third one has it set: ...3FF)
 KbMenu == << [lo |-> 4096, hi |-> 6139, key |-> "000102030405060708090A0B0C0D0E0F", ctr |-> "0123456789ABCDEF"],
              [lo |-> 8192, hi |-> 10235, key |-> "A0A1A2A3A4A5A6A7A8A9AAABACADAEAF", ctr |-> "1111111122222222"],
-             [lo |-> 12288, hi |-> 14331, key |-> "F0E0D0C0B0A090807060504030201000", ctr |-> "FEDCBA9876543210"] >>
+             [lo |-> 12288, hi |-> 14335, key |-> "F0E0D0C0B0A090807060504030201000", ctr |-> "FEDCBA9876543210"],
+             \* contexts that do not decrypt: ADE clear (...7F9), VLD clear (...7FA)
+             [lo |-> 16384, hi |-> 18425, key |-> "101112131415161718191A1B1C1D1E1F", ctr |-> "0011223344556677"],
+             [lo |-> 20480, hi |-> 22522, key |-> "202122232425262728292A2B2C2D2E2F", ctr |-> "8899AABBCCDDEEFF"] >>
 GDefKeyblob == NDefs < MaxDefs /\ Len(kbs) < 3 /\ \E id \in {0, 1, 5} \ KbIds : \E k \in 1..Len(KbMenu) :
                  /\ \A i \in 1..Len(kbs) : kbs[i].lo # KbMenu[k].lo
                  /\ DefKeyblob(id, KbMenu[k].lo, KbMenu[k].hi, KbMenu[k].key, KbMenu[k].ctr)
                  /\ Log([ev |-> "DefKeyblob", id |-> id, lo |-> KbMenu[k].lo, hi |-> KbMenu[k].hi, key |-> KbMenu[k].key, ctr |-> KbMenu[k].ctr])
-GBeginSection == Len(secs) < MaxSecs /\ (secs = <<>> \/ NStmts > 0) /\ \E id \in {0, 1, 5} : BeginSection(id) /\ Log([ev |-> "BeginSection", id |-> id])
+\* a section may be empty (the quantifier says 0..n statements): the section list must still mirror the program
+GBeginSection == Len(secs) < MaxSecs /\ \E id \in {0, 1, 5} : BeginSection(id) /\ Log([ev |-> "BeginSection", id |-> id])
 Blobs == {<<170, 187, 204, 221>>, <<1, 2, 3, 4, 5, 6, 7, 8>>, <<18, 52>>}
 StmtMenu ==
      {[s |-> "load_blob", addr |-> a, blob |-> b, mem |-> m] : a \in ExprMenu, b \in Blobs, m \in {0, 288}}
@@ -51,12 +55,12 @@ StmtMenu ==
 \cup {[s |-> "reset"]}
 \cup {[s |-> "version_check", nsec |-> t, ver |-> a] : t \in {0, 1}, a \in ExprMenu}
 \cup {[s |-> k, addr |-> a, mem |-> 9] : k \in {"keystore_to_nv", "keystore_from_nv"}, a \in ExprMenu}
-\cup {[s |-> "encrypt", kb |-> kbs[i].id, addr |-> Lit(kbs[i].lo + o), data |-> d] : i \in 1..Len(kbs), o \in {0, 512}, d \in {Iota(16), Iota(5)}}
+\cup {[s |-> "encrypt", kb |-> kbs[i].id, act |-> (kbs[i].hi % 4 = 3), addr |-> Lit(kbs[i].lo + o), data |-> d] : i \in 1..Len(kbs), o \in {0, 512}, d \in {Iota(16), Iota(5)}}
 \cup {[s |-> "keywrap", kb |-> kbs[i].id, addr |-> a, kek |-> "0102030405060708090A0B0C0D0E0F00"] : i \in 1..Len(kbs), a \in {Lit(0), Lit(8192)}}
 GStmt == phase = "section" /\ NStmts < MaxStmts /\ \E st \in StmtMenu : (KbOnly => st.s \in {"encrypt", "keywrap"}) /\ Stmt(st) /\ Log([ev |-> "Stmt", st |-> st])
 GRefuse == ~KbOnly /\ phase = "section" /\ \E kind \in Unsupported : Refuse(kind) /\ Log([ev |-> "Refuse", kind |-> kind])
 GInit == PInit /\ hist = <<>> /\ done = FALSE
-Finish == /\ ~done /\ (phase = "refused" \/ (phase = "section" /\ NStmts > 0))
+Finish == /\ ~done /\ (phase = "refused" \/ phase = "section")
           /\ done' = TRUE /\ PrintT(ToJson(hist)) /\ UNCHANGED <<pvars, hist>>
 GNext == ~done /\ (GDefConst \/ GDefOption \/ GDefOptionStr \/ GDefKeyblob \/ GBeginSection \/ GStmt \/ GRefuse \/ Finish)
 \* lemma: every command the spec produces is well formed
